@@ -117,7 +117,7 @@ LEVEL_TEXT = 'translation_validation'
 
 
 def finding_matches(f, pid, r, v):
-    if f.get('property') != pid:
+    if f.get('property') != pid and pid not in f.get('properties', []):
         return False
     m = f.get('match', {})
     if 'kernel' in m and not re.fullmatch(m['kernel'], r['kernel']):
@@ -189,7 +189,7 @@ def main(argv=None):
             engine_errors += 1
             log(f"ENGINE-ERROR kernel {r['pkg']}/{r['kernel']}: {json.dumps(r['engine_errors'][:1], default=str)[:1200]}")
     for bv_ in build_violations:
-        f = next((f for f in known.get('findings', []) if f.get('property') == pid and f.get('match', {}).get('build_variant')
+        f = next((f for f in known.get('findings', []) if (f.get('property') == pid or pid in f.get('properties', [])) and f.get('match', {}).get('build_variant')
                   and re.fullmatch(f['match']['build_variant'], bv_['variant'])), None)
         if f:
             key = f.get('id', f.get('what'))
